@@ -29,6 +29,8 @@ func init() {
 			{ID: "R20g", Floor: 2, Doc: "the deferred writer hands the direct writer exactly the roots it was given: the constructors store their roots parameter itself (a rebuilt list turns nil into empty, and the header encodes the two differently)", Run: ruleR20g},
 			{ID: "R20h", Floor: 1, Doc: "OnPut can be called from inside a Put callback: Put runs the callbacks while holding the writer's lock, so OnPut must not acquire it", Run: ruleR20h},
 			{ID: "R20i", Floor: 1, Doc: "the path constructor treats every path as a file name: NewDeferredCarWriterForPath stores its path parameter as given, compares it with nothing and never hands over to the stream constructor", Run: ruleR20i},
+			{ID: "R20j", Floor: 3, Doc: "the deferred writer adds no state and no checks of its own to a put: no error is kept in a field of DeferredCarWriter, and Put / Has pass their context on without consulting it (the direct writer does neither)", Run: ruleR20j},
+			{ID: "R20l", Floor: 20, Doc: "an option constructor sets the one option it is named after: the overridable default the stream constructor prepends leaves nothing else behind (= R04i)", Run: ruleR04i},
 		},
 	})
 }
